@@ -8,20 +8,26 @@ import (
 )
 
 type SurnameInList struct {
-	document *gedcom.Document
-	surname  string
+	document   *gedcom.Document
+	surname    string
+	visibility LivingVisibility
 }
 
-func NewSurnameInList(document *gedcom.Document, surname string) *SurnameInList {
+func NewSurnameInList(document *gedcom.Document, surname string, visibility LivingVisibility) *SurnameInList {
 	return &SurnameInList{
-		document: document,
-		surname:  surname,
+		document:   document,
+		surname:    surname,
+		visibility: visibility,
 	}
 }
 
 func (c *SurnameInList) WriteHTMLTo(w io.Writer) (int64, error) {
 	count := 0
 	for _, individual := range c.document.Individuals() {
+		if isHiddenLiving(individual, c.visibility) {
+			continue
+		}
+
 		if individual.Name().Surname() == c.surname {
 			count++
 		}
